@@ -24,7 +24,8 @@ TRUSTED_BASE = [
     "Python ==/hash on None/int/str/tuple-of-float = Group.Model.gval_eqb; np.allclose(a, b, atol) = |a-b| <= atol + 1e-5*|b| "
     "elementwise in exact rationals with numpy broadcasting of 1-d shapes (numpy's default rtol is a constant of the model)",
     "DicomStack.add_dcm is a Section variable (state -> file -> state * exception); in the correspondence it is the real "
-    "add_dcm sampled at the points the run visits",
+    "add_dcm sampled at the points the run visits; C18_stack_real / C18_parse_and_stack_isolation_real instantiate it with the Stack "
+    "model's add_dcm (coq/Stack/Model.v), transactional by C11's lemma",
 ]
 ASSUMPTIONS = [
     "group-by values are None, int, str or a list of floats (no NaN/inf, no nested lists, no bare floats)",
@@ -39,7 +40,8 @@ RULE = ("file pools of 2-14 files: 1-4 series x 1-4 images (stack kind: slices x
         "orientation (other plane, or a zero component shifted by 2e-4..1e-3 = beyond tolerance; jitter <= 3e-5 inside a series), plus "
         "1-3 faulty files; per pool 4-9 path lists: two shuffles without faults, each fault at first / last / random positions in warn "
         "mode, one strict list. Extra kinds: closeness chains a~b~c with a!~c, asymmetric pairs (|b| large), missing attributes "
-        "(None keys), orientation of other lengths (broadcast), custom group_by / close_tests. Non-trivial = at least two groups or "
+        "(None keys), orientation of other lengths (broadcast), custom group_by = any ordering of any non-empty subset of the default keys "
+        "(half of them with the tolerance-compared key first) and custom close_tests; the order of the returned groups is observed. Non-trivial = at least two groups or "
         "at least one fault / refusal in some list")
 
 PIX = ('PixelData', 'FloatPixelData', 'DoubleFloatPixelData')
